@@ -341,25 +341,70 @@ impl InternalObserver {
     { unimplemented!() }
 }
 
+#[verifier::external_body]
+pub struct WeakObs { _p: u8 }      // Weak<dyn ErasedObserver>
+pub uninterp spec fn weak_target(w: &WeakObs) -> Option<Rc<InternalObserver>>;
+impl WeakObs {
+    #[verifier::external_body]
+    fn upgrade(&self) -> (r: Option<Rc<InternalObserver>>) ensures r == weak_target(self) { unimplemented!() }
+}
+impl InternalObserver {
+    #[verifier::external_body]
+    fn unsubscribe__reached(&self, token: SubscriptionToken) -> (r: Result<(), ObserverError>)
+        ensures false,
+    { unimplemented!() }
+}
+
 pub struct StateObservers {
     pub all_observers: HashMap<ObserverId, Rc<InternalObserver>>,
+    pub new_observers: Vec<WeakObs>,
 }
 
 impl StateObservers {
+    /// registry invariant (frame obligation C10/frame/all_observers-keyed-by-id): an observer is filed under its own id
+    spec fn keyed_by_id(&self) -> bool {
+        forall|k: ObserverId| self.all_observers@.contains_key(k) ==> (#[trigger] self.all_observers@[k]).id == k
+    }
+    /// some live observer (linked, or created since the last stabilise) carries this id
+    spec fn knows(&self, id: ObserverId) -> bool {
+        self.all_observers@.contains_key(id)
+        || exists|i: int| 0 <= i < self.new_observers@.len() && weak_target(#[trigger] &self.new_observers@[i]) is Some
+               && weak_target(&self.new_observers@[i]).unwrap().id == id
+    }
+
 //@extract fn State::unsubscribe
 //@ file: src/state.rs
 //@ impl: impl State
 //@ name: unsubscribe
 //@ as: fn unsubscribe(&self, token: SubscriptionToken)
-//@ cells: all_observers
-//@ rule R8: `obs.unsubscribe(token)` => `obs.unsubscribe__shared(token)` x1
-//@ props: C10
+//@ cells: all_observers, new_observers
+//@ rule R8: `obs.unsubscribe(token)` => `obs.unsubscribe__shared(token)` x*
+//@ props: C10 C09
 //@ contract:
-//@|     requires
-//@|         // registry invariant (frame obligation C10/frame/all_observers-keyed-by-id): an observer is filed under its own id
-//@|         forall|k: ObserverId| self.all_observers@.contains_key(k) ==> (#[trigger] self.all_observers@[k]).id == k,
-//@|     // [unsubscribing-through-the-state-never-panics]: the `unwrap()` is an obligation; an unknown / departed
-//@|     // observer id falls through the `if let` and nothing happens
+//@|     requires self.keyed_by_id(),
+//@|     // [unsubscribing-through-the-state-never-panics]: each `unwrap()` is an obligation; an unknown / departed
+//@|     // observer id falls through and nothing happens
+//@ loop? 0:
+//@|     invariant self.keyed_by_id(),
+//@end
+
+//@extract fn State::unsubscribe!must
+//@ file: src/state.rs
+//@ impl: impl State
+//@ name: unsubscribe
+//@ as: fn unsubscribe__a_live_observer_is_always_reached(&self, token: SubscriptionToken)
+//@ cells: all_observers, new_observers
+//@ panics: diverge
+//@ rule R8: `obs.unsubscribe(token)` => `obs.unsubscribe__reached(token)` x*
+//@ rule R7 re: `for (\w+) in (\w+)\.iter\(\)` => `for \1 in vx_it: \2.iter()` x*
+//@ props: C09
+//@ contract:
+//@|     requires self.keyed_by_id(), self.knows(token.0),
+//@|     ensures false, // [unsubscribing-through-the-state-reaches-the-tokens-observer-linked-or-not-yet-linked]
+//@ loop? 0:
+//@|     invariant
+//@|         self.keyed_by_id(), !self.all_observers@.contains_key(token.0), self.knows(token.0), *new_obs == self.new_observers,
+//@|         forall|j: int| 0 <= j < vx_it.index@ ==> !(weak_target(#[trigger] &self.new_observers@[j]) is Some && weak_target(&self.new_observers@[j]).unwrap().id == token.0),
 //@end
 }
 
